@@ -11,7 +11,9 @@ func CompileToGetCodeSet(ctx *RuntimeContext, typeptr uintptr) (*OpcodeSet, erro
 			return nil, err
 		}
 		verifSlot(false, 0, typeptr, codeSet)
-		return getFilteredCodeSetIfNeeded(ctx, codeSet)
+		filtered, err := getFilteredCodeSetIfNeeded(ctx, codeSet)
+		verifProgram(typeptr, filtered)
+		return filtered, err
 	}
 	index := (typeptr - typeAddr.BaseTypeAddr) >> typeAddr.AddrShift
 	if codeSet := cachedOpcodeSets[index]; codeSet != nil {
@@ -20,6 +22,7 @@ func CompileToGetCodeSet(ctx *RuntimeContext, typeptr uintptr) (*OpcodeSet, erro
 		if err != nil {
 			return nil, err
 		}
+		verifProgram(typeptr, filtered)
 		return filtered, nil
 	}
 	codeSet, err := newCompiler().compile(typeptr)
@@ -32,5 +35,6 @@ func CompileToGetCodeSet(ctx *RuntimeContext, typeptr uintptr) (*OpcodeSet, erro
 		return nil, err
 	}
 	cachedOpcodeSets[index] = codeSet
+	verifProgram(typeptr, filtered)
 	return filtered, nil
 }
